@@ -6,6 +6,11 @@
 (*   Scn = "decode": a reference-encoded message, then one of              *)
 (*                   calcpath / getpath / getdata(length only) / getdata   *)
 (*   Scn = "pad"   : finalisation for every message length in Lens         *)
+(*   Scn = "near"  : putpath / putdata on prior contents that are the same *)
+(*                   call's own result with one bit of the path / value /  *)
+(*                   length prefix flipped ("already in place" short cuts) *)
+(*   Scn = "nearpad": finalisation on an already finalised message with    *)
+(*                   stale pad bytes or one bit of the first quadlet off   *)
 (***************************************************************************)
 EXTENDS VssCodec, Json, FiniteSets
 CONSTANTS Scn, Modes, Types, NBg, Lens, Big
@@ -35,6 +40,7 @@ ValuesOf(dt) ==
   IF ~KnownType(dt) THEN { ValBytes(1, 4, 2) }
   ELSE IF IsVar(dt)
     THEN { ValBytes(ElemSize(dt), c, p) : c \in Counts, p \in {1, 2, 5} }
+         \cup { ValBytes(ElemSize(dt), 300, 2) }                    \* more than 255 elements, for every element width
          \cup (IF Big THEN { ValBytes(ElemSize(dt), 65535 \div ElemSize(dt), 2) } ELSE {})
     ELSE { ValBytes(ElemSize(dt), 1, p) : p \in 0..6 }
 
@@ -47,9 +53,35 @@ PathsOf(mode) ==
 VOp(op, arg, k) == [op |-> op, arg |-> arg, n |-> k]
 HdrWith(a, h, mode, dt) == SetSem(SetSem(a, h, "Vss", "addr_mode", V64(mode)), h, "Vss", "vss_datatype", V64(dt))
 
+\* byte positions (1-based, in the arena) whose least significant bit is flipped to derive near-valid prior contents
+NearSpots(lo, len) == { lo + i : i \in { j \in {1, 2, 3, 4, 5, 6, 7, 8, len - 1, len} : j >= 1 /\ j <= len } }
 GInit ==
   /\ out = Sentinel /\ n = 0
-  /\ CASE Scn \in {"encode", "decode"} ->
+  /\ CASE Scn = "near" ->
+         \E mode \in Modes : \E dt \in Types : \E path \in PathsOf(mode) : \E val \in ValuesOf(dt) : \E k \in 1..NBg : \E nop \in {"putpath", "putdata"} :
+            LET h == 0
+                total == h + VH + Len(PathWire(mode, path)) + Len(DataWire(dt, val)) + 3
+                a == HdrWith(Pat(k + 1, total), h, mode, dt)
+                enc == PutData(PutPath(a, h, path), h, val)
+                lo == IF nop = "putpath" THEN h + VH ELSE h + VH + Len(PathWire(mode, path))
+                ln == IF nop = "putpath" THEN Len(PathWire(mode, path)) ELSE Len(DataWire(dt, val)) IN
+            /\ Len(val) <= 64
+            /\ \E spot \in NearSpots(lo, ln) :
+                 /\ job = [mode |-> mode, dt |-> dt, path |-> path, val |-> val, nearop |-> nop]
+                 /\ hb = [b \in Buf |-> h]
+                 /\ mem = [b \in Buf |-> FlipBit(enc, 8 * spot - 1)]
+       [] Scn = "nearpad" ->
+         \E vlen \in Lens : \E k \in 1..NBg : \E init \in {0, 1} :
+            LET h == 0
+                a0 == Pat(k, h + vlen + VPad(vlen) + 5)
+                a == IF init = 1 THEN InitSem(a0, h, "Vss") ELSE a0
+                post == PadMsg(a, h, vlen) IN
+            \E img \in { FlipBit(post, p) : p \in 0..31 }
+                       \cup (IF VPad(vlen) > 0 THEN { [i \in 1..Len(post) |-> IF i > h + vlen /\ i <= h + vlen + VPad(vlen) THEN 238 ELSE post[i]] \o << >> } ELSE {}) :
+              /\ job = [mode |-> 0, dt |-> 0, path |-> << >>, val |-> << >>]
+              /\ hb = [b \in Buf |-> h]
+              /\ mem = [b \in Buf |-> img]
+       [] Scn \in {"encode", "decode"} ->
          \E mode \in Modes : \E dt \in Types : \E path \in PathsOf(mode) : \E val \in ValuesOf(dt) : \E k \in 1..NBg : \E h \in {0, 3} :
             LET total == h + VH + Len(PathWire(mode, path)) + Len(DataWire(dt, val)) + 3
                 a == HdrWith(Pat(k + 1, total), h, mode, dt)
@@ -83,7 +115,10 @@ GNext ==
                \/ DoVss(VOp("getpath", << >>, 1))
                \/ KnownType(job.dt) /\ DoVss(VOp("getdata", << >>, 0))
                \/ KnownType(job.dt) /\ DoVss(VOp("getdata", << >>, 1))
-       [] Scn = "pad" ->
+       [] Scn = "near" ->
+            /\ n = 0 /\ job.mode \in {0, 1}
+            /\ DoVss(VOp(job.nearop, IF job.nearop = "putpath" THEN job.path ELSE job.val, 0))
+       [] Scn \in {"pad", "nearpad"} ->
             /\ n = 0 /\ \E vlen \in Lens : (Len(mem[1]) = hb[1] + vlen + VPad(vlen) + 5 /\ DoVss(VOp("pad", << >>, vlen)))
 GSpec == GInit /\ [][GNext]_gvars
 
